@@ -16,11 +16,12 @@ import (
 )
 
 // C06 correspondence:
-//  (i)  operand-class predicates, exhaustively: universe of ~270 operands × every
-//       operand type code (0 … oprndtypemax+1), real x86.VerifMatch vs model;
-//  (ii) three-layer agreement: x86 constructor, Context method, package-level
-//       function called BY NAME (through zz_c06_wrappers.go, generated from
-//       /repo by cmd/genctors) on matching and near-miss operand tuples.
+//
+//	(i)  operand-class predicates, exhaustively: universe of ~270 operands × every
+//	     operand type code (0 … oprndtypemax+1), real x86.VerifMatch vs model;
+//	(ii) three-layer agreement: x86 constructor, Context method, package-level
+//	     function called BY NAME (through zz_c06_wrappers.go, generated from
+//	     /repo by cmd/genctors) on matching and near-miss operand tuples.
 //
 // Populated by the generated file zz_c06_wrappers.go; empty when it is absent.
 var (
@@ -207,8 +208,8 @@ func c06Match(t uint8, op operand.Op) (res string) {
 // ---------------------------------------------------------------- layers
 
 type c06Outcome struct {
-	resp           string // "err", "panic", "na" or canonical instruction
-	dnodes, derrs  int
+	resp          string // "err", "panic", "na" or canonical instruction
+	dnodes, derrs int
 }
 
 func c06NewCtx() *build.Context {
